@@ -116,8 +116,21 @@ class World:
         if isinstance(x, str):
             return {"t": "str", "s": x}
         if isinstance(x, KeyedList):
+            # the key index is part of the observable state (keys(), x[key], index_for_key): an index out of step with the items is alien
+            try:
+                coherent = len(x._dict) == len(x._list) and all(x._dict.get(x.key(y), MISSING) is y for y in x._list)
+            except Exception:
+                coherent = False
+            if not coherent:
+                return {"t": "alien", "s": "keyed list whose key index disagrees with its items"}
             return {"t": "klist", "e": [self.alpha(y) for y in x]}
         if isinstance(x, KeyedSet):
+            try:
+                coherent = all(x.key(y) == k for k, y in x._dict.items())
+            except Exception:
+                coherent = False
+            if not coherent:
+                return {"t": "alien", "s": "keyed set whose keys disagree with its items"}
             return {"t": "kset", "e": [self.alpha(y) for y in x]}
         if isinstance(x, list):
             return {"t": "list", "e": [self.alpha(y) for y in x]}
@@ -186,7 +199,14 @@ class World:
             for p in order:
                 if p in xs and not ov.get(p):
                     getattr(obj, p)
-            if self.alpha(obj)["x"] != {"_": S.MISSING, **{p: o["x"].get(p, S.MISSING) for p in order}}:
+            want = {"_": S.MISSING, **{p: o["x"].get(p, S.MISSING) for p in order}}
+            have = self.alpha(obj)["x"]
+            if self.scn["classes"][o["c"]].get("post_set"):
+                # __post_init__ moved the attributes away from o: the receiver is judged on its own projected state, so only the
+                # pattern of filled caches has to be the one asked for
+                if {k: v["t"] == "missing" for k, v in have.items()} != {k: v["t"] == "missing" for k, v in want.items()}:
+                    return None
+            elif have != want:
                 return None
         return obj
 
